@@ -5,7 +5,9 @@ from lib.sx import S, unS
 
 ALPHA = list('ab10.-+$_X()[]|,;"\\=<>*/ %')
 # letters / white space outside ASCII on which the model's Unicode tables are exact
-UNI = ['é', 'ß', 'Ω', 'λ', 'Ж', 'я', '山', '語', '\u00a0', '\u3000', '\u2028', '\u0085', '\t', '×', '÷']
+UNI = ['é', 'ß', 'Ω', 'λ', 'Ж', 'я', '山', '語', '\u00a0', '\u3000', '\u2028', '\u0085', '\t', '×', '÷',
+       # characters whose LOW BYTE is a punctuation code: ( ) , " [ , \\ ]
+       'Ш', 'Щ', 'Ь', 'Т', 'ś', '本', 'Ŝ', 'ŝ']
 
 TERM_OPS = ["parse-term", "parse-args", "parse-list", "parse-complex", "parse-function",
             "parse-query"]
@@ -27,7 +29,7 @@ def exhaustive(n):
             yield "".join(t)
 
 # ---------------- grammar ----------------
-ATOMS = ["a", "b", "abc", "Argon", "hello world", "x1", "a_b", "é", "山", "Жук", "ab.c", "-", "+", "a-b",
+ATOMS = ["a", "b", "abc", "Argon", "hello world", "x1", "a_b", "é", "山", "Жук", "ab.c", "-", "+", "a-b", "Шура", "Тула", "日本", "Щи", "śa", "Ьх",
          "%", "*", "/", "<", "=", ";", "_"]
 VARS = ["$X", "$Y", "$Tail", "$x1", "$Ω", "$山"]
 ODD_DOLLAR = ["$", "$1", "$10", "$_x", "$ X", "$$"]
@@ -121,3 +123,7 @@ FLOAT_EDGE = ["1.", ".1", "-.1", "+1.", ".", "-.", "1..", "1.2.3", "0.1", "0.3",
               "4.9406564584124654e-324".replace("e-324", ""), "123456789012345678901234567890.123456789",
               "0.30000000000000004", "5e-324", "1\\e5.", ".1\\e5", "1.\\e5", "1.\\e-5", "1.5\\E+3", "\\i\\n\\f", "1.\\e400",
               "1.\\e-400", "2.2250738585072011\\e-308", "1.\\e", "1.\\e+", "\\n\\a\\n", "\\+.5", "1 .5", "1. 5"]
+
+# number-like texts that Rust's float parser accepts but the crate's classifier does not treat as numbers (and the reverse)
+EXPONENT_LIKE = ["1e5", "2E3", "-4e2", "6.02e23", "+inf", "-inf", "inf", "nan", "NaN", "infinity", "9223372036854775808", "-9223372036854775809",
+                 "1e400", "1e-400", "0x10", "1_000", "1.5e3", "1.e3", ".5e1", "+5", "+5.5"]
